@@ -23,6 +23,7 @@ import (
 	"context"
 	"encoding/json"
 	"fmt"
+	"math"
 	"math/rand"
 	"os"
 	"runtime"
@@ -173,10 +174,20 @@ func payload(s scen, k int) map[string]interface{} {
 		}
 	}
 	d := map[string]interface{}{"k": float64(k)}
+	if unencodable(s, k) {
+		d["bad"] = math.NaN()
+	}
 	if size > 0 {
 		d["pad"] = strings.Repeat("x", size)
 	}
 	return d
+}
+
+// unencodable says whether the k-th traveler of the scenario carries a value encoding/json refuses (pattern
+// "nan"): the serializer cannot output such an item, so the producer owes nothing for it and a placeholder
+// that takes its place is not an item; every OTHER item must still come out once and in input order.
+func unencodable(s scen, k int) bool {
+	return s.Pat == "nan" && (k+int(s.Seed))%5 == 2
 }
 
 func traveler(s scen, k int) gdbi.Traveler {
@@ -357,6 +368,9 @@ func runMarshal(s scen) run {
 			t := traveler(s, k)
 			select {
 			case in <- t:
+				if unencodable(s, k) {
+					return []int{}, true
+				}
 				return []int{k}, true
 			case <-abort:
 				return nil, false
@@ -364,14 +378,19 @@ func runMarshal(s scen) run {
 		},
 		func() { close(in) },
 		func(abort <-chan struct{}) ([]int, bool, bool) {
-			select {
-			case b, ok := <-out:
-				if !ok {
-					return nil, false, true
+			for {
+				select {
+				case b, ok := <-out:
+					if !ok {
+						return nil, false, true
+					}
+					if s.Pat == "nan" && len(b) == 0 {
+						continue // placeholder of an item that cannot be encoded
+					}
+					return []int{bytesID(b)}, true, true
+				case <-abort:
+					return nil, false, false
 				}
-				return []int{bytesID(b)}, true, true
-			case <-abort:
-				return nil, false, false
 			}
 		})
 	// toWorkers 10 + worker 1 + fromWorkers 10 per lane, distributor 1, merger 1, out 10*W
@@ -417,6 +436,9 @@ func runSerde(s scen) run {
 			t := traveler(s, k)
 			select {
 			case in <- t:
+				if unencodable(s, k) {
+					return []int{}, true
+				}
 				return []int{k}, true
 			case <-abort:
 				return nil, false
@@ -424,14 +446,19 @@ func runSerde(s scen) run {
 		},
 		func() { close(in) },
 		func(abort <-chan struct{}) ([]int, bool, bool) {
-			select {
-			case t, ok := <-out:
-				if !ok {
-					return nil, false, true
+			for {
+				select {
+				case t, ok := <-out:
+					if !ok {
+						return nil, false, true
+					}
+					if s.Pat == "nan" && travelerID(t) == -1 {
+						continue // what the blank line of an unencodable item decodes to
+					}
+					return []int{travelerID(t)}, true, true
+				case <-abort:
+					return nil, false, false
 				}
-				return []int{travelerID(t)}, true, true
-			case <-abort:
-				return nil, false, false
 			}
 		})
 	return run{rec: rec, cap: s.CapIn + 2*(1+s.W*21+1+10*s.W), maxchunk: 1, hang: hang, dump: dump}
